@@ -1139,6 +1139,107 @@ def _corpus():
 
 # the recorded defect (Example C10_unrepaired_pure_phase_refuted) and the witness of
 # C10_hard_idempotent_amp_refuted, on the implementation
+# ------------------------------------------------------------------------------------------
+# round 4: cross-test of the translator (harness/translate_C10.py).  The functions translated from the
+# CURRENT source (build/C10/Gen_C10Tie.v) are run by vm_compute on the dyadic correspondence inputs of
+# this run and compared with what the real Python functions returned, through the same comparators
+# as the model (a translator that silently dropped or mis-read a statement would show up here).
+
+XT: dict = {}
+
+PRE_GEN = PRE.replace("From QV.model Require Import C10_Model.",
+                      "From QV.lib Require Import C10_TieLib.\nFrom QV.model Require Import C10_Model.\n"
+                      "From GenC10 Require Import Gen_C10Tie.") + """
+Definition g_polar_case (ty : obj_type) (cfg : ocfg) (mask : option (list Q)) (obj : list (list polar)) :=
+  map (map (fun p : polar => (showq (fst p), showq (snd p))))
+      (gen_wave (fun _ x => x) (fun x => x) ty cfg false false false mask obj).
+Definition g_pot_case (cfg : ocfg) (mask : option (list Q)) (obj : list (list Q)) :=
+  map (map showq) (gen_pot (fun _ x => x) Potential cfg false false false mask obj).
+Definition g_tomo_case (pos : bool) (shrink : option Q) (obj : list Q) := map showq (hd [] (gen_tomo pos shrink [obj])).
+Definition g_gs_case (ps : list (list (Z * Z))) :=
+  map (fun m : Qc * list C => (fx (fst m), showq (this (mode_intensity m)),
+                               map (fun z : C => (fx (fst z), fx (snd z))) (snd m)))
+      (gen_orth (map (map zc) ps)).
+Definition g_w_case (mean : Q) (raw : list Q) (ps : list (list (Z * Z))) :=
+  let out := gen_weights (fun v => v) (Q2Qc mean) (norm_weights (map Q2Qc raw)) (map (map zc) ps) in
+  (map (fun m => showq (this (sv_int m))) out, map (fun m => showq (this (fst m))) out).
+"""
+
+
+def wg_expr(case, req):
+    K = case["K"]
+    P = case_probe(case).astype(np.complex128).reshape(K, -1)
+    raw = [Fraction(x) for x in (case["weights"] if case["weights"] is not None else [float(np.float32(t)) for t in req])]
+    return "g_w_case %s %s [%s]%%Z" % (qlit(Fraction(case["mean"])), qlist(raw), "; ".join(
+        "[" + "; ".join("(%d, %d)" % (int(round(z.real)), int(round(z.imag))) for z in P[i]) + "]" for i in range(K)))
+
+
+def cross_test(ctx: Ctx):
+    exprs, todo = [], []
+    if "objd" in XT:
+        dcases, prepared = XT["objd"]
+        for case, obs in list(zip(dcases, prepared))[:ctx.budget(100, 300)]:
+            e = objd_expr(case)
+            exprs.append("g_" + e)
+            todo.append(("objd", case, obs))
+    if "tomo" in XT:
+        for case, out in list(zip(*XT["tomo"]))[:ctx.budget(40, 100)]:
+            exprs.append("g_" + tomo_expr(case))
+            todo.append(("tomo", case, out))
+    if "gsd" in XT:
+        for case, out in sorted(zip(*XT["gsd"]), key=lambda co: co[0]["K"] * co[0]["roi"][0] * co[0]["roi"][1])[:ctx.budget(10, 24)]:
+            exprs.append("g_" + gsd_expr(case))
+            todo.append(("gsd", case, out))
+    if "wd" in XT:
+        for case, (ip, req) in list(zip(*XT["wd"]))[:ctx.budget(60, 100)]:
+            if not all(float(v).is_integer() for v in case_probe(case).view(np.float32).ravel()):
+                continue
+            exprs.append(wg_expr(case, req))
+            todo.append(("wd", case, ip))
+    if not exprs:
+        return
+    heavy = [i for i, t in enumerate(todo) if t[0] == "gsd"]
+    light = [i for i, t in enumerate(todo) if t[0] != "gsd"]
+    raw = [None] * len(exprs)
+    for name, ids, shard in (("xt", light, 40), ("xtg", heavy, 2)):
+        if ids:
+            for i, v in zip(ids, ctx.coq_eval(name, PRE_GEN, [exprs[i] for i in ids], shard=shard, parse=False,
+                                              extra_flags=["-Q", str(ctx.dir), "GenC10"])):
+                raw[i] = v
+    nbad = 0
+    per = {}
+    for (kind, case, obs), v in zip(todo, raw):
+        v = re.sub(r"\s+", " ", v)
+        v = re.sub(r"\(\s*(-\d+)\s*\)\s*%Z", r"\1", v)
+        v = parse_coq_value(re.sub(r"%[ZQ]\b", "", v))
+        per[kind] = per.get(kind, 0) + 1
+        ctx.cov["traces_validated_against_impl"] += 1
+        if kind == "objd":
+            o2 = dict(obs)
+            if "untied" in o2:          # the translated wave function is run with the tying step as identity
+                o2["out"] = o2["untied"]
+            c2 = dict(case)
+            c2["cfg"] = dict(case["cfg"])
+            if case["ty"] != "potential":
+                c2["cfg"]["identical_slices"] = False
+            bad = objd_correspond(c2, o2, [v])
+        elif kind == "tomo":
+            model = np.array([float(fr_of(q)) for q in v]).reshape(case["shape"])
+            bad = [] if np.array_equal(model, obs.astype(np.float64)) else [("tomography", "gen_tomo %s, implementation %s"
+                                                                            % (model.ravel().tolist(), obs.ravel().tolist()))]
+        elif kind == "gsd":
+            bad = gsd_correspond(case, obs, v)
+        else:
+            bad = wd_correspond(case, obs, v)
+        for key, what in bad:
+            nbad += 1
+            ctx.cov["disagreements_checked"] += 1
+            ctx.violation("translator-crosstest", "the function translated from the current source (vm_compute) and the real Python "
+                          "function disagree [%s]: %s" % (key, what), dict(case), found_input=False)
+    ctx.cov["translator_tie"]["crosstest"] = {"evaluated": per, "disagreements": nbad}
+    ctx.log("translator cross-test: %s inputs through the translated functions, %d disagreements with the implementation" % (per, nbad))
+
+
 WITNESSES = [
     {"kind": "obj", "ty": "pure_phase", "shape": [1, 1, 2], "raw_re": [3.0, 1.0], "raw_im": [0.0, 1.0], "mask": [0.5, 1.0],
      "mask_kind": "witness", "mag_kind": "witness",
@@ -1199,6 +1300,7 @@ def check_objects(ctx: Ctx):
         ctx.dist("objd/mask=%s%s" % (case.get("mask_kind"), "(applied)" if case["cfg"]["apply_fov_mask"] and case["mask"] else ""))
         ctx.count(("objd", json.dumps(case, sort_keys=True)), nontrivial=True)
     vals = coq_vals(ctx, "objd", exprs, 40)
+    XT["objd"] = (dcases, prepared)
     by_case = {}
     for v, ci in zip(vals, owner):
         by_case.setdefault(ci, []).append(v)
@@ -1226,6 +1328,7 @@ def check_objects(ctx: Ctx):
     tcases = [gen_tomo_case(r) for _ in range(ctx.budget(40, 400))]
     touts = [tomo_out(c) for c in tcases]
     tvals = coq_vals(ctx, "tomo", [tomo_expr(c) for c in tcases], 40)
+    XT["tomo"] = (tcases, touts)
     nd = 0
     for case, out, v in zip(tcases, touts, tvals):
         ctx.dist("tomo/positivity=%s,shrinkage=%s" % (case["positivity"], "off" if not case["shrinkage"] else
@@ -1272,6 +1375,7 @@ def check_probes(ctx: Ctx):
         dcases.append(gen_probe_case(r, dyadic=True))
     outs = [gs_out(c) for c in dcases]
     vals = coq_vals(ctx, "gsd", [gsd_expr(c) for c in dcases], 4)
+    XT["gsd"] = (dcases, outs)
     nd = 0
     for case, out, v in zip(dcases, outs, vals):
         ctx.dist("gsd/modes=%d" % case["K"])
@@ -1374,6 +1478,7 @@ def check_weights(ctx: Ctx):
     dcases = [gen_weight_case(r, dyadic=True) for _ in range(ctx.budget(60, 800))]
     obs = [weights_out(c) for c in dcases]
     vals = coq_vals(ctx, "wd", [wd_expr(c, o[1]) for c, o in zip(dcases, obs)], 30)
+    XT["wd"] = (dcases, obs)
     nd = 0
     for case, (ip, req), v in zip(dcases, obs, vals):
         ctx.dist("wd/modes=%d" % case["K"])
@@ -1502,12 +1607,22 @@ def run(ctx: Ctx):
         "pass-through torch module defined in harness/props/C10.py (forward(x) = 0 * x + parameter)",
     ]
     ctx.proofs_or_violation()
+    # round 4: the translator tie (the four anchored functions, re-translated and re-proved on this run)
+    try:
+        from ..translate_C10 import run_tie
+        run_tie(ctx)
+    except Exception as e:  # noqa: BLE001 - fail closed
+        ctx.broken_obligation = "; ".join(filter(None, [ctx.broken_obligation, "translator tie could not run: %r" % (e,)]))
+        ctx.log("PROOF OBLIGATION BROKEN (translator tie could not run): %r" % (e,))
     import torch
     torch.set_num_threads(2)
+    XT.clear()
     check_objects(ctx)
     check_probes(ctx)
     check_weights(ctx)
     check_insitu(ctx)
+    if ctx.cov.get("translator_tie", {}).get("compiled"):
+        cross_test(ctx)
     ctx.cov["worst_observed_vs_tolerance"] = WORST
     kf = [k for k in ctx._known().get("known", []) if k.get("property") == "C10"]
     for k in kf:
